@@ -32,6 +32,10 @@ pub struct Round {
     /// performed by the main thread while the readers run, after `writer_delay` yields
     pub writer: Option<WriterOp>,
     pub writer_delay: u8,
+    /// the writer first waits until this many bodies have completed in the round (0 = do not
+    /// wait; bounded by 400 yields): puts the cancellation inside in-flight work
+    #[serde(default)]
+    pub writer_after: u8,
     /// (reader index, yields before the controller calls cancel() on that reader's token)
     pub cancels: Vec<(u8, u8)>,
 }
@@ -182,6 +186,7 @@ mod imp {
             let mut handles = vec![];
             let mut tokens = vec![];
             shuttle::rt::new_phase();
+            let exec_base = db.shared.exec_ends.load(SeqCst);
             for reqs in &round.readers {
                 let dbc = db.clone();
                 tokens.push(salsa::Database::cancellation_token(&dbc));
@@ -203,6 +208,14 @@ mod imp {
             }
             drop(tokens);
             if let Some(op) = &round.writer {
+                if round.writer_after > 0 {
+                    let base = exec_base;
+                    let mut spins = 0;
+                    while db.shared.exec_ends.load(SeqCst) < base + round.writer_after as u32 && spins < 400 {
+                        crate::sched_yield();
+                        spins += 1;
+                    }
+                }
                 for _ in 0..round.writer_delay {
                     crate::sched_yield();
                 }
@@ -336,17 +349,22 @@ mod imp {
         // dependency that has been written (see refcyc::incomplete_participants)
         let mut d12_from: Option<usize> = None;
         if prog.is_cyclic() {
-            let mut written = BTreeSet::new();
-            for (ri, (round, log)) in conc.rounds.iter().zip(logs.iter()).enumerate() {
-                if let Some(WriterOp::SetIn { i, f, .. }) = &round.writer {
-                    written.insert((*i as usize, *f as usize));
-                }
+            // memo states at the end of an earlier round (finalized legitimately in their own
+            // revision) against the fields written in later rounds
+            'outer: for (ri, log) in logs.iter().enumerate() {
                 let Some(post) = log.post.as_ref() else { continue };
                 let cr = crate::refcyc::CycRef::solve(prog, post);
-                let hit = logs[..=ri].iter().any(|l| !crate::refcyc::incomplete_participants(&cr, &l.memo_infos, &written).is_empty());
-                if hit {
-                    d12_from = Some(ri);
-                    break;
+                for r0 in 0..ri {
+                    let mut written = BTreeSet::new();
+                    for round in &conc.rounds[r0 + 1..=ri] {
+                        if let Some(WriterOp::SetIn { i, f, .. }) = &round.writer {
+                            written.insert((*i as usize, *f as usize));
+                        }
+                    }
+                    if !crate::refcyc::incomplete_participants(&cr, &logs[r0].memo_infos, &written).is_empty() {
+                        d12_from = Some(ri);
+                        break 'outer;
+                    }
                 }
             }
         }
